@@ -1027,6 +1027,10 @@ func (p *Parser[V]) parseLet(tokenizer *Tokenizer, idents Identifiers[V]) (AST, 
 }
 
 func (p *Parser[V]) parseExpression(tokenizer *Tokenizer, constants Identifiers[V]) (AST, error) {
+	if len(p.operators) == 0 {
+		// no binary operators at all
+		return p.parseUnary(tokenizer, constants)
+	}
 	return p.parseOp(tokenizer, 0, constants)
 }
 
@@ -1075,7 +1079,7 @@ func (p *Parser[V]) parseUnary(tokenizer *Tokenizer, constants Identifiers[V]) (
 			t = tokenizer.Next()
 			var inner AST
 			var err error
-			if un.opPos >= 0 {
+			if un.opPos >= 0 && un.opPos+1 < len(p.operators) {
 				// the unary is also an operator ("-")
 				inner, err = p.parseOp(tokenizer, un.opPos+1, constants)
 			} else {
